@@ -105,11 +105,52 @@ def cls_prime_continuation(base_text, var_name, var_text):
 
 KNOWN_CLASSES = {"prime-continuation-blank-line": cls_prime_continuation}
 
+# Hand-written pairs (base, variant) for surface differences the generators deliberately do NOT produce, because the
+# real parser is known to treat them differently.  "judged": by the text of C14 the pair must compile alike, so a
+# disagreement is a failure unless the class is an open known finding.  "unjudged": whether the statement covers the
+# pair is a matter of reading; the outcome is only recorded in the evidence.
+PROBES = {
+    "linebreak-in-index-brackets": ("judged",
+        "start :: fn do\n    t := (1, 2)\n    x := t[0]\nend\n",
+        "start :: fn do\n    t := (1, 2)\n    x := t[\n        0\n    ]\nend\n"),
+    "linebreak-in-type-brackets": ("judged",
+        "E :: enum\n    A (int, int)\nend\nstart :: fn do\n    t: (int, int) = (1, 2)\n    l: [int] = [1]\nend\n",
+        "E :: enum\n    A (int,\n       int)\nend\nstart :: fn do\n    t: (int,\n        int) = (1, 2)\n"
+        "    l: [\n        int\n    ] = [1]\nend\n"),
+    "arrow-call-as-operand": ("unjudged",
+        "f :: fn a: int, b: int -> int do\n    ret a\nend\nstart :: fn do\n    x := f(1, 2) + 1\nend\n",
+        "f :: fn a: int, b: int -> int do\n    ret a\nend\nstart :: fn do\n    x := 1 -> f(2) + 1\nend\n"),
+    "parenthesised-assignment-target": ("unjudged",
+        "start :: fn do\n    x := 1\n    x = 2\nend\n",
+        "start :: fn do\n    x := 1\n    (x) = 2\nend\n"),
+    "missing-final-newline": ("unjudged", "start :: fn do\nend\n", "start :: fn do\nend"),
+    "parenthesised-callee-index-base-type": ("judged",
+        "f :: fn -> int do\n    ret 1\nend\nstart :: fn do\n    t := (1, 2)\n    a: int = t[0]\n    b := f()\n    f()\nend\n",
+        "f :: fn -> int do\n    ret 1\nend\nstart :: fn do\n    t := (1, 2)\n    a: (int) = (t)[0]\n    b := (f)()\n    (f())\nend\n"),
+    "linebreak-in-if-header": ("judged",
+        "start :: fn do\n    if 1 < 2 do\n    end\nend\n", "start :: fn do\n    if 1 <\n 2 do\n    end\nend\n"),
+}
+
+
+def run_probes(compiler=None):
+    compiler = compiler or (lambda cases: vlib.harness("compile", cases, timeout_s=20))
+    names = sorted(PROBES)
+    cases = []
+    for n in names:
+        _, a, b = PROBES[n]
+        cases += [compile_case("/main.sy", a, "nostd"), compile_case("/main.sy", b, "nostd")]
+    out = compiler(cases)
+    res = {}
+    for i, n in enumerate(names):
+        a, b = outcome(out[2 * i]), outcome(out[2 * i + 1])
+        res[n] = {"kind": PROBES[n][0], "agree": a == b, "base": a[0], "variant": b[0]}
+    return res
+
 
 def open_known(pid="C14"):
     out = {}
     for kf in vlib.known_findings(pid):
-        if kf.get("status") == "open" and kf.get("class") in KNOWN_CLASSES:
+        if kf.get("status") == "open" and (kf.get("class") in KNOWN_CLASSES or kf.get("class") in PROBES):
             out[kf["class"]] = kf
     return out
 
@@ -279,7 +320,22 @@ def always(ctx):
                 % stats["generated_base_rejected"])
     stats["oracle_failures"] = len(failures)
     stats["known_class_hits"] = {k: len(v) for k, v in known_hits.items()}
-    return {"oracle": stats}
+    probes = run_probes()
+    known = open_known()
+    for n, p in probes.items():
+        if p["kind"] == "judged" and not p["agree"]:
+            if n in known:
+                p["status"] = "open known finding"
+            else:
+                p["status"] = "FAILURE"
+                failures.append({"base": "probe:" + n, "variant": n, "what": "base %s, variant %s" % (p["base"], p["variant"]),
+                                 "base_text": PROBES[n][1], "variant_text": PROBES[n][2], "flags": "nostd", "class": n})
+                ctx.brk("oracle:probe:" + n, "base %s, variant %s" % (p["base"], p["variant"]))
+        elif p["kind"] == "judged":
+            p["status"] = "holds" + (" (listed as an open known finding: no longer reproduces)" if n in known else "")
+        else:
+            p["status"] = "recorded only"
+    return {"oracle": stats, "probes": probes}
 
 
 # ------------------------------------------------------------------------------------------------
